@@ -7,7 +7,7 @@
    Go's math package, not theorems. *)
 From Coq Require Import Reals List ZArith.
 From Interval Require Import Interval.Interval Real.Xreal.
-From V Require Import Ival IvalProofs.
+From V Require Import Ival IvalProofs AbsBits.
 Open Scope R_scope.
 
 Notation "b ∋ x" := (contains (I.convert b) (Xreal x)) (at level 70).
@@ -49,6 +49,17 @@ Print Assumptions C10_widen_sound.
 (* a float result accepted by res_in really is (as the real number m * 2^e it denotes) in the enclosure *)
 Theorem C10_res_in_sound w r E m e : decode w r = VFin m e -> res_in w r E = true -> E ∋ (IZR m * Raux.bpow Zaux.radix2 e).
 Proof. exact (res_in_fin_correct w r E m e). Qed.
+
+(* Abs (and the identity branch of PRelu) is judged BIT-EXACTLY: the expected pattern is the input's with
+   the sign bit cleared. That pattern is the float |x|: same exponent, absolute value of the significand
+   (so +0 for both zeros), +Inf for both infinities -- axiom-free *)
+Theorem C10_abs_pattern_is_abs_f32 x m e : (0 <= x < 4294967296)%Z -> decode W32 x = VFin m e ->
+  decode W32 (x mod 2147483648) = VFin (Z.abs m) e.
+Proof. exact (abs_bits_W32 x m e). Qed.
+Theorem C10_abs_pattern_is_abs_f64 x m e : (0 <= x < 18446744073709551616)%Z -> decode W64 x = VFin m e ->
+  decode W64 (x mod 9223372036854775808) = VFin (Z.abs m) e.
+Proof. exact (abs_bits_W64 x m e). Qed.
+Print Assumptions C10_abs_pattern_is_abs_f64.
 
 (* non-vacuity: tanh(1.5f) = 0x3F67B7CC lies in the enclosure S uses, a value 64 ulp away does not *)
 Example C10_nonvacuous :
